@@ -718,11 +718,13 @@ func (obj *SparseFloat32Matrix) JointIterator(b ConstMatrix) MatrixJointIterator
 }
 func (obj *SparseFloat32Matrix) ITERATOR() *SparseFloat32MatrixIterator {
   r := SparseFloat32MatrixIterator{*obj.values.ITERATOR(), obj}
+  r.skipOutside()
   return &r
 }
 func (obj *SparseFloat32Matrix) ITERATOR_FROM(i, j int) *SparseFloat32MatrixIterator {
   k := obj.index(i, j)
   r := SparseFloat32MatrixIterator{*obj.values.ITERATOR_FROM(k), obj}
+  r.skipOutside()
   return &r
 }
 func (obj *SparseFloat32Matrix) JOINT_ITERATOR(b ConstMatrix) *SparseFloat32MatrixJointIterator {
@@ -743,6 +745,20 @@ type SparseFloat32MatrixIterator struct {
 }
 func (obj *SparseFloat32MatrixIterator) Index() (int, int) {
   return obj.m.ij(obj.SparseFloat32VectorIterator.Index())
+}
+func (obj *SparseFloat32MatrixIterator) Next() {
+  obj.SparseFloat32VectorIterator.Next()
+  obj.skipOutside()
+}
+// the underlying vector also holds the entries of the parent matrix that lie
+// outside a sub-matrix view: skip them
+func (obj *SparseFloat32MatrixIterator) skipOutside() {
+  for obj.SparseFloat32VectorIterator.Ok() {
+    if i, j := obj.Index(); i >= 0 && i < obj.m.rows && j >= 0 && j < obj.m.cols {
+      return
+    }
+    obj.SparseFloat32VectorIterator.Next()
+  }
 }
 func (obj *SparseFloat32MatrixIterator) Clone() *SparseFloat32MatrixIterator {
   return &SparseFloat32MatrixIterator{*obj.SparseFloat32VectorIterator.Clone(), obj.m}
